@@ -1,4 +1,5 @@
 import PanderaModel.Config
+import PanderaModel.DepthParts
 import PanderaModel.Lemmas.Depth
 import PanderaModel.Generated.ScopeMap
 import PanderaModel.Generated.EnvConfig
@@ -113,11 +114,6 @@ theorem depth_decomposes (T : ScopeTable) (S : Schema) (D : Frame) :
   unfold Decomp at this
   simpa [accepts, List.isEmpty_iff] using this
 
-def ColSpec.schemaPart (s : ColSpec) : ColSpec := { s with unique := false, checks := [] }
-
-def Schema.schemaPart (S : Schema) : Schema :=
-  { S with columns := S.columns.map ColSpec.schemaPart, index := S.index.map ColSpec.schemaPart,
-           unique := [] }
 
 theorem fieldErrors_schemaOnly (ctx : Ctx) (spec : ColSpec) (fn : Option String) (phys : DType)
     (vals : List Val) :
@@ -192,12 +188,6 @@ theorem schemaOnly_is_schema_part (S : Schema) (D : Frame) :
         | cons _ _ => rfl
   rw [h1, h2, h3, h3', h5, h6]
 
-def ColSpec.dataPart (s : ColSpec) : ColSpec := { s with nullable := true, dtype := none, required := false }
-
-def Schema.dataPart (S : Schema) : Schema :=
-  { S with columns := S.columns.map ColSpec.dataPart,
-           index := S.index.map (fun ix => { ColSpec.dataPart ix with name := none }),
-           strict := .no, ordered := false }
 
 /-- recorded finding `K_C18_dataOnlySchemaErrors`: two schema-level errors are raised outside the
 scope mechanism (`strict_filter_columns` is a parser, an unmatched required regex column raises
